@@ -63,6 +63,7 @@ type Gen struct {
 	partialSkipped int         // obligations not generated because the contract says partial
 	nepoch   int
 	warnings []string
+	staleDropped []string // names removed from a scope because only a pre-loop definition was visible inside a loop that reassigns them
 	callOrd  map[string]int
 	kindOrd  map[string]int
 	params   map[string]Val
